@@ -66,6 +66,9 @@ func driveSlice(s *shardSet, rng *rand.Rand, thorough bool) ([]string, map[strin
 					if cv.Len() > 0 {
 						w.SetSample(child, 0, w.NextStamp())
 						w.SetSample(child, cv.Len()-1, w.NextStamp())
+						if isFloatTy(ty) {
+							w.signFlip(child, cv.Len()-1, -1, 0)
+						}
 					}
 					if w.Views[par].Len() > 0 {
 						w.SetSample(par, rng.Intn(w.Views[par].Len()), w.NextStamp())
@@ -370,6 +373,10 @@ func driveChannel(s *shardSet, rng *rand.Rand, thorough bool) ([]string, map[str
 				if window {
 					w.Slice(par, 1, 1+l)
 					par = len(w.Views) - 1
+				}
+				if isFloatTy(ty) {
+					c, i := rng.Intn(ch), rng.Intn(w.Views[par].Length())
+					w.signFlip(par, ch*i+c, c, i)
 				}
 				for c := 0; c < ch; c++ {
 					w.ChanShape(par, c)
